@@ -379,3 +379,1020 @@ def base_request(base):
     body = None if base['body'] is None else json.dumps(base['body']).encode()
     return make_req(base['method'], path, query,
                     std_headers(base['mv'], body is not None), body)
+
+
+# =========================================================================================
+# 4. Junk sets
+# =========================================================================================
+
+NONASCII = 'hé☃\U0001d11e'
+I31, I63, I64, E30 = 2 ** 31, 2 ** 63, 2 ** 64, 10 ** 30
+
+
+def _j(s):
+    return json.dumps(s).encode()
+
+
+# (id, class, raw JSON bytes)
+BODY_JUNK = [
+    ('null', 'null', b'null'), ('true', 'bool', b'true'),
+    ('0', 'int:0', b'0'), ('-1', 'int:neg', b'-1'), ('1', 'int:1', b'1'),
+    ('1.0', 'float:integral', b'1.0'), ('1.5', 'float', b'1.5'),
+    ('2^31-1', 'int<=2^31-1', b'%d' % (I31 - 1)),
+    ('2^31', 'int:2^31..2^63-1', b'%d' % I31),
+    ('2^63-1', 'int:2^31..2^63-1', b'%d' % (I63 - 1)),
+    ('2^63', 'int>=2^63', b'%d' % I63), ('2^64', 'int>=2^63', b'%d' % I64),
+    ('10^30', 'int>=2^63', b'%d' % E30), ('-2^63-1', 'int<-2^63', b'%d' % (-I63 - 1)),
+    ('NaN', 'nan', b'NaN'), ('Infinity', 'inf', b'Infinity'), ('-Infinity', 'inf', b'-Infinity'),
+    ('1e400', 'float:overflow', b'1e400'),
+    ('""', 'str:empty', b'""'), ('" "', 'str:blank', b'" "'), ('"x"', 'str:short', b'"x"'),
+    ('256A', 'str:long', _j('A' * 256)), ('nonascii', 'str:nonascii', _j(NONASCII)),
+    ('nul', 'str:ctrl', b'"x\\u0000y"'), ('newline', 'str:ctrl', b'"x\\n"'),
+    ('surrogate', 'str:surrogate', b'"\\ud800"'),
+    ('badutf8', 'bytes:invalid-utf8', b'"\xff\xfe"'),
+    ('[]', 'list', b'[]'), ('{}', 'dict', b'{}'),
+    ('deep', 'deep', b'[' * 100 + b']' * 100),
+]
+BODY_JUNK_BY_ID = {j[0]: j for j in BODY_JUNK}
+# reduced set used for pairs (one representative per behaviour class)
+BODY_JUNK_D2 = ['null', '-1', '1.5', '2^63', '""', '256A', 'nonascii', '[]', '{}']
+
+KEY_JUNK = [
+    ('""', 'str:empty', b'""'), ('" "', 'str:blank', b'" "'), ('"x"', 'str:short', b'"x"'),
+    ('256A', 'str:long', _j('A' * 256)), ('nonascii', 'str:nonascii', _j(NONASCII)),
+    ('nul', 'str:ctrl', b'"x\\u0000y"'), ('surrogate', 'str:surrogate', b'"\\ud800"'),
+    ('badutf8', 'bytes:invalid-utf8', b'"\xff\xfe"'),
+]
+KEY_JUNK_BY_ID = {j[0]: j for j in KEY_JUNK}
+
+
+def _q(s):
+    return quote(s, safe='')
+
+
+# (id, class, raw percent-encoded text) -- for query values, query tokens
+QUERY_JUNK = [
+    ('empty', 'str:empty', ''), ('blank', 'str:blank', '%20'), ('x', 'str:short', 'x'),
+    ('256A', 'str:long', 'A' * 256), ('nonascii', 'str:nonascii', _q(NONASCII)),
+    ('nul', 'str:ctrl', '%00'), ('newline', 'str:ctrl', 'x%0A'),
+    ('surrogate', 'str:surrogate', '%ED%A0%80'), ('badutf8', 'bytes:invalid-utf8', '%FF%FE'),
+    ('rawlatin1', 'bytes:invalid-utf8', '\xe9'),
+    ('badpct', 'pct:invalid', '%zz'), ('pct', 'pct:invalid', '%'), ('plus', 'str:blank', '+'),
+    ('0', 'int:0', '0'), ('-1', 'int:neg', '-1'), ('1', 'int:1', '1'),
+    ('1.0', 'float:integral', '1.0'), ('1.5', 'float', '1.5'),
+    ('2^31-1', 'int<=2^31-1', str(I31 - 1)), ('2^31', 'int:2^31..2^63-1', str(I31)),
+    ('2^63-1', 'int:2^31..2^63-1', str(I63 - 1)), ('2^63', 'int>=2^63', str(I63)),
+    ('2^64', 'int>=2^63', str(I64)), ('10^30', 'int>=2^63', str(E30)),
+    ('-2^63-1', 'int<-2^63', str(-I63 - 1)),
+    ('NaN', 'nan', 'NaN'), ('Infinity', 'inf', 'Infinity'), ('-Infinity', 'inf', '-Infinity'),
+    ('1e400', 'float:overflow', '1e400'),
+    ('fullwidth1', 'int:exotic', '%EF%BC%91'), ('1_0', 'int:exotic', '1_0'),
+    ('+1', 'int:exotic', '%2B1'), ('sp1', 'int:exotic', '%201'), ('0x10', 'int:exotic', '0x10'),
+    ('null', 'null', 'null'), ('true', 'bool', 'true'), ('[]', 'list', '%5B%5D'),
+    ('{}', 'dict', '%7B%7D'),
+    (':', 'syntax', ':'), (',', 'syntax', ','), ('!', 'syntax', '!'), ('in:', 'syntax', 'in:'),
+    ('!in:', 'syntax', '!in:'), ('in:,', 'syntax', 'in:,'), (',,', 'syntax', ',,'),
+    ('a:b:c', 'syntax', 'a:b:c'), (':1', 'syntax', ':1'), ('VCPU:', 'syntax', 'VCPU:'),
+    ('VCPU:1:2', 'syntax', 'VCPU:1:2'), ('!!', 'syntax', '!!X'), ('in:!x', 'syntax', 'in:!x'),
+    ('startswith:', 'syntax', 'startswith:'), ('VCPU:1,', 'syntax', 'VCPU:1,'),
+    (',VCPU:1', 'syntax', ',VCPU:1'),
+]
+QUERY_JUNK_BY_ID = {j[0]: j for j in QUERY_JUNK}
+QUERY_JUNK_D2 = ['empty', 'x', 'nonascii', 'badutf8', '-1', '2^63', ':', ',', '!', 'in:']
+
+PATH_JUNK = [
+    ('blank', 'str:blank', '%20'), ('x', 'str:short', 'x'), ('256A', 'str:long', 'A' * 256),
+    ('10kA', 'str:verylong', 'A' * 10000), ('nonascii', 'str:nonascii', _q(NONASCII)),
+    ('nul', 'str:ctrl', '%00'), ('newline', 'str:ctrl', 'x%0A'),
+    ('badutf8', 'bytes:invalid-utf8', '%FF%FE'), ('badpct', 'pct:invalid', '%zz'),
+    ('pct', 'pct:invalid', '%'), ('0', 'int:0', '0'), ('-1', 'int:neg', '-1'),
+    ('2^63', 'int>=2^63', str(I63)), ('null', 'null', 'null'), ('.', 'dot', '.'),
+    ('..', 'dot', '..'), ('enc..', 'dot', '%2E%2E'), ('*', 'str:short', '*'),
+    ('enc?', 'str:short', 'a%3Fb'), ('enc#', 'str:short', 'a%23b'), ('enc%', 'str:short', '%25'),
+    (';a=b', 'str:short', 'x;a=b'), ('{uuid}', 'str:short', '%7Buuid%7D'),
+    ('a%2Fb', 'encslash', 'a%2Fb'), ('a%252Fb', 'encslash', 'a%252Fb'),
+    ('backslash', 'str:short', '%5C'), ('plus', 'str:short', '+'),
+]
+PATH_JUNK_BY_ID = {j[0]: j for j in PATH_JUNK}
+PATH_JUNK_D2 = ['x', '256A', 'nonascii', 'badutf8', 'nul', '..']
+
+UUID_RE = re.compile(r'^[0-9a-f]{8}-[0-9a-f]{4}-[0-9a-f]{4}-[0-9a-f]{4}-[0-9a-f]{12}$')
+NAME_RE = re.compile(r'^[A-Z0-9_]+$')
+INT_RE = re.compile(r'^-?[0-9]+$')
+
+
+def tweaks(v):
+    """Grammar-aware mutations of a valid string / integer: [(id, class, new python value)]."""
+    out = []
+    if isinstance(v, bool) or v is None:
+        return out
+    if isinstance(v, int):
+        return [('as-str', 'int-as-str', str(v)), ('neg', 'int:neg', -v),
+                ('float', 'float:integral', float(v)), ('plus.5', 'float', v + 0.5),
+                ('plus1e6', 'int:large-valid', v + 10 ** 6)]
+    if isinstance(v, float):
+        return [('as-str', 'float-as-str', str(v)), ('neg', 'float:neg', -v),
+                ('tiny', 'float:tiny', 1e-9), ('huge', 'float:huge', 1e39)]
+    if not isinstance(v, str):
+        return out
+    if UUID_RE.match(v):
+        out += [('upper', 'uuid:upper', v.upper()), ('undashed', 'uuid:undashed',
+                                                     v.replace('-', '')),
+                ('braces', 'uuid:braces', '{%s}' % v), ('urn', 'uuid:urn', 'urn:uuid:' + v),
+                ('trunc', 'uuid:truncated', v[:-1]), ('unknown', 'uuid:unknown', UNKNOWN_UUID)]
+    elif NAME_RE.match(v) and not INT_RE.match(v):
+        out += [('lower', 'name:lower', v.lower()),
+                ('unknown', 'name:unknown', 'CUSTOM_ZZZ_UNKNOWN'),
+                ('unknown-std', 'name:unknown', 'ZZZ_UNKNOWN'),
+                ('long', 'name:long', 'CUSTOM_' + 'A' * 250),
+                ('prefix-only', 'name:prefix-only', 'CUSTOM_'),
+                ('dash', 'name:dash', v.replace('_', '-') + '-X'),
+                ('standard', 'name:standard', 'VCPU' if v != 'VCPU' else 'HW_CPU_X86_AVX')]
+    elif INT_RE.match(v):
+        n = int(v)
+        out += [('neg', 'int:neg', str(-n if n else -1)), ('float', 'float:integral', v + '.0'),
+                ('plus1e6', 'int:large-valid', str(n + 10 ** 6))]
+    else:
+        out += [('upper', 'str:upper', v.upper())]
+    out += [('+newline', 'str:+newline', v + '\n'), ('+nul', 'str:+nul', v + '\x00'),
+            ('+space', 'str:+space', v + ' '), ('+nonascii', 'str:+nonascii', v + 'é')]
+    return out
+
+
+def tweak_of(v, tid):
+    for t in tweaks(v):
+        if t[0] == tid:
+            return t
+    return None
+
+
+# =========================================================================================
+# 5. Body tree, serialiser, body mutations
+# =========================================================================================
+# A tree node is ['d', [[key_bytes, node], ...]] | ['l', [node, ...]] | ['s', raw_bytes, pyvalue]
+
+
+def tree_of(v):
+    if isinstance(v, dict):
+        return ['d', [[_j(k), tree_of(x)] for k, x in v.items()]]
+    if isinstance(v, list):
+        return ['l', [tree_of(x) for x in v]]
+    return ['s', _j(v), v]
+
+
+def ser(n):
+    if n[0] == 'd':
+        return b'{' + b', '.join(k + b': ' + ser(x) for k, x in n[1]) + b'}'
+    if n[0] == 'l':
+        return b'[' + b', '.join(ser(x) for x in n[1]) + b']'
+    return n[1]
+
+
+def walk(n, path=()):
+    """yield (path, node); a path element is an index into the pairs / items list."""
+    yield path, n
+    if n[0] == 'd':
+        for i, (_, x) in enumerate(n[1]):
+            for y in walk(x, path + (i,)):
+                yield y
+    elif n[0] == 'l':
+        for i, x in enumerate(n[1]):
+            for y in walk(x, path + (i,)):
+                yield y
+
+
+def node_at(n, path):
+    for i in path:
+        n = n[1][i][1] if n[0] == 'd' else n[1][i]
+    return n
+
+
+def pointer_class(tree, path):
+    """JSON-pointer-like class of a position: uuid keys -> {uuid}, class/trait-like keys ->
+    {NAME}, other pattern keys kept, list indexes -> []."""
+    out = []
+    n = tree
+    for i in path:
+        if n[0] == 'd':
+            k = json.loads(n[1][i][0])
+            if UUID_RE.match(k):
+                k = '{uuid}'
+            elif NAME_RE.match(k):
+                k = '{NAME}'
+            elif k == '' or k.startswith('_'):
+                k = '{suffix}'
+            out.append(k)
+            n = n[1][i][1]
+        else:
+            out.append('[]')
+            n = n[1][i]
+    return '/' + '/'.join(out)
+
+
+def body_ops(tree, junk_ids=None, d2=False):
+    """All single body mutations: (path, op, arg, jclass)."""
+    ops = []
+    junk = [j for j in BODY_JUNK if junk_ids is None or j[0] in junk_ids]
+    keyjunk = [j for j in KEY_JUNK if not d2 or j[0] in ('""', 'nonascii', '256A')]
+    for path, n in walk(tree):
+        for jid, jcls, _ in junk:
+            ops.append((path, 'set', jid, jcls))
+        if n[0] == 's' and not d2:
+            for tid, tcls, _ in tweaks(n[2]):
+                ops.append((path, 'tweak', tid, tcls))
+        if n[0] == 'd':
+            ops.append((path, 'addkey', None, 'unknown-key'))
+        if n[0] == 'l' and n[1]:
+            ops.append((path, 'dupitem', None, 'duplicate-item'))
+        if path:
+            parent = node_at(tree, path[:-1])
+            ops.append((path, 'del', None, 'delete'))
+            if parent[0] == 'd':
+                if not d2:
+                    ops.append((path, 'dupkey', None, 'duplicate-key'))
+                    k = json.loads(parent[1][path[-1]][0])
+                    for tid, tcls, _ in tweaks(k):
+                        ops.append((path, 'keytweak', tid, 'key:' + tcls))
+                for jid, jcls, _ in keyjunk:
+                    ops.append((path, 'key', jid, 'key:' + jcls))
+    return ops
+
+
+def apply_body(tree, ops):
+    """Apply body ops (each (path, op, arg, ...)) -> bytes or None when they do not compose."""
+    ops = sorted(ops, key=lambda o: o[0], reverse=True)       # later / deeper positions first
+    for a in range(len(ops)):
+        for b in range(a + 1, len(ops)):
+            pa, pb = ops[a][0], ops[b][0]
+            if pa[:len(pb)] == pb or pb[:len(pa)] == pa:
+                return None
+    t = json.loads(json.dumps(tree_jsonable(tree)))
+    t = tree_unjson(t)
+    for o in ops:
+        path, op, arg = o[0], o[1], o[2]
+        n = node_at(t, path)
+        parent = node_at(t, path[:-1]) if path else None
+
+        def replace(new):
+            if parent is None:
+                t[:] = new
+            elif parent[0] == 'd':
+                parent[1][path[-1]][1] = new
+            else:
+                parent[1][path[-1]] = new
+        if op == 'set':
+            replace(['s', BODY_JUNK_BY_ID[arg][2], None])
+        elif op == 'tweak':
+            replace(['s', _j(tweak_of(n[2], arg)[2]), None])
+        elif op == 'addkey':
+            n[1].append([b'"zz_unknown"', ['s', b'"x"', 'x']])
+        elif op == 'dupitem':
+            n[1].append(n[1][0])
+        elif op == 'del':
+            del parent[1][path[-1]]
+        elif op == 'dupkey':
+            parent[1].append(list(parent[1][path[-1]]))
+        elif op == 'key':
+            parent[1][path[-1]][0] = KEY_JUNK_BY_ID[arg][2]
+        elif op == 'keytweak':
+            k = json.loads(parent[1][path[-1]][0])
+            parent[1][path[-1]][0] = _j(tweak_of(k, arg)[2])
+        else:
+            raise ValueError(op)
+    return ser(t)
+
+
+def tree_jsonable(n):
+    if n[0] == 'd':
+        return ['d', [[k.decode('latin-1'), tree_jsonable(x)] for k, x in n[1]]]
+    if n[0] == 'l':
+        return ['l', [tree_jsonable(x) for x in n[1]]]
+    return ['s', n[1].decode('latin-1'), n[2]]
+
+
+def tree_unjson(n):
+    if n[0] == 'd':
+        return ['d', [[k.encode('latin-1'), tree_unjson(x)] for k, x in n[1]]]
+    if n[0] == 'l':
+        return ['l', [tree_unjson(x) for x in n[1]]]
+    return ['s', n[1].encode('latin-1'), n[2]]
+
+
+# =========================================================================================
+# 6. Query, path, envelope (method / headers / raw body) mutations
+# =========================================================================================
+
+TOK_RE = re.compile(r'([,:!])')
+KNOWN_PARAMS = [
+    ('name', 'rp1'), ('uuid', P(1)), ('member_of', A(1)), ('resources', 'VCPU:1'),
+    ('in_tree', P(1)), ('required', 'HW_CPU_X86_AVX'), ('limit', '1'),
+    ('group_policy', 'isolate'), ('same_subtree', '_A,_B'), ('root_required', 'CUSTOM_FAST'),
+    ('project_id', 'proj1'), ('user_id', 'user1'), ('consumer_type', 'INSTANCE'),
+    ('associated', 'true'), ('resources1', 'VCPU:1'), ('required1', 'CUSTOM_FAST'),
+    ('member_of1', A(1)), ('in_tree1', P(1)), ('resources_A', 'VCPU:1'),
+    ('required_B', 'CUSTOM_FAST'), ('zz_unknown', '1'), ('resources' + 'X' * 70, 'VCPU:1'),
+    ('resources_' + 'a' * 65, 'VCPU:1'), ('resources-1', 'VCPU:1'), ('resources_é', 'VCPU:1'),
+]
+RAW_QUERY_SUFFIX = [
+    ('&', 'syntax:raw', '&'), ('&&', 'syntax:raw', '&&a=1'), ('&=', 'syntax:raw', '&=1'),
+    (';', 'syntax:raw', ';a=1'), ('&%zz', 'pct:invalid', '&%zz=1'), ('&%', 'pct:invalid', '&%'),
+    ('&rawlatin1', 'bytes:invalid-utf8', '&\xe9=\xe9'), ('&badutf8', 'bytes:invalid-utf8',
+                                                        '&%FF=%FE'),
+    ('&nul', 'str:ctrl', '&%00=%00'), ('?', 'syntax:raw', '?'), ('#', 'syntax:raw', '#frag'),
+    ('&long', 'str:verylong', '&a=' + 'A' * 20000),
+]
+
+
+def tok_kind(t):
+    if UUID_RE.match(t):
+        return 'uuid'
+    if INT_RE.match(t):
+        return 'amount'
+    if t in ('in', 'startswith'):
+        return 'prefix'
+    return 'name'
+
+
+def tokens(v):
+    """-> list of value pieces; the odd ones are delimiters."""
+    return TOK_RE.split(v)
+
+
+def query_ops(query, d2=False):
+    """(pos, op, arg, posclass, jclass); pos = index of the parameter, or ('+', n) for adds."""
+    ops = []
+    junk = [j for j in QUERY_JUNK if not d2 or j[0] in QUERY_JUNK_D2]
+    for i, (k, v) in enumerate(query):
+        for jid, jcls, _ in junk:
+            ops.append((i, 'set', jid, k, jcls))
+        ops.append((i, 'del', None, k, 'delete'))
+        ops.append((i, 'dup', None, k, 'repeated'))
+        ops.append((i, 'conflict', None, k, 'conflicting'))
+        if not d2:
+            ops.append((i, 'noeq', None, k, 'no-equals-sign'))
+            for tid, tcls, _ in tweaks(v):
+                ops.append((i, 'tweak', tid, k, tcls))
+            for kid, kcls, kf in KEY_TWEAKS:
+                ops.append((i, 'key', kid, k, 'key:' + kcls))
+        toks = tokens(v)
+        if len(toks) > 1:
+            for t in range(0, len(toks), 2):
+                if toks[t] == '':
+                    continue
+                pc = '%s[%s]' % (k, tok_kind(toks[t]))
+                for jid, jcls, _ in junk:
+                    ops.append((i, 'tok', (t, jid), pc, jcls))
+                if not d2:
+                    for tid, tcls, _ in tweaks(toks[t]):
+                        ops.append((i, 'toktweak', (t, tid), pc, tcls))
+                    ops.append((i, 'tokdel', t, pc, 'delete-token'))
+                    ops.append((i, 'tokdup', t, pc, 'repeated-token'))
+    have = {k for k, _ in query}
+    for n, (k, v) in enumerate(KNOWN_PARAMS):
+        if k not in have and (not d2 or n < 14):
+            ops.append((('+', n), 'add', None, '+' + k[:24], 'added-param'))
+    if not d2:
+        for n, (rid, rcls, _) in enumerate(RAW_QUERY_SUFFIX):
+            ops.append((('~', n), 'raw', None, 'raw-suffix', rcls))
+    return ops
+
+
+KEY_TWEAKS = [
+    ('upper', 'upper', lambda k: k.upper()), ('+_', 'suffix', lambda k: k + '_'),
+    ('+1', 'suffix', lambda k: k + '1'), ('+_A', 'suffix', lambda k: k + '_A'),
+    ('+nonascii', 'nonascii', lambda k: k + '%C3%A9'), ('+[]', 'brackets', lambda k: k + '[]'),
+    ('+nul', 'ctrl', lambda k: k + '%00'), ('+badutf8', 'invalid-utf8', lambda k: k + '%FF'),
+]
+
+
+def enc_q(s):
+    """Percent-encode a *python string value* for the query (keeps , : ! readable)."""
+    return quote(s, safe=',:!_-.~')
+
+
+def apply_query(query, ops):
+    q = [[k, v, True] for k, v in query]       # key, raw value, has '='
+    pos = [o[0] for o in ops]
+    if len(set(map(repr, pos))) != len(pos):
+        return None
+    tail = []
+    suffix = ''
+    dels = []
+    for o in ops:
+        i, op, arg = o[0], o[1], o[2]
+        if op == 'add':
+            k, v = KNOWN_PARAMS[i[1]]
+            tail.append('%s=%s' % (quote(k, safe='_-'), v))
+            continue
+        if op == 'raw':
+            suffix = RAW_QUERY_SUFFIX[i[1]][2]
+            continue
+        k, v = query[i]
+        if op == 'set':
+            q[i][1] = QUERY_JUNK_BY_ID[arg][2]
+        elif op == 'del':
+            dels.append(i)
+        elif op == 'dup':
+            tail.append('%s=%s' % (k, v))
+        elif op == 'conflict':
+            tail.append('%s=%s' % (k, 'x'))
+        elif op == 'noeq':
+            q[i][2] = False
+        elif op == 'tweak':
+            q[i][1] = enc_q(tweak_of(v, arg)[2])
+        elif op == 'key':
+            q[i][0] = [f for kid, _, f in KEY_TWEAKS if kid == arg][0](k)
+        elif op in ('tok', 'toktweak', 'tokdel', 'tokdup'):
+            toks = tokens(v)
+            if op == 'tok':
+                toks[arg[0]] = QUERY_JUNK_BY_ID[arg[1]][2]
+            elif op == 'toktweak':
+                toks[arg[0]] = enc_q(tweak_of(toks[arg[0]], arg[1])[2])
+            elif op == 'tokdel':
+                toks[arg] = ''
+            else:
+                toks[arg] = toks[arg] + ',' + toks[arg]
+            q[i][1] = ''.join(toks)
+        else:
+            raise ValueError(op)
+    parts = [('%s=%s' % (k, v)) if eq else k for n, (k, v, eq) in enumerate(q)
+             if n not in dels]
+    return '&'.join(parts + tail) + suffix
+
+
+def path_ops(segs, d2=False):
+    """(pos, op, arg, posclass, jclass)."""
+    ops = []
+    junk = [j for j in PATH_JUNK if not d2 or j[0] in PATH_JUNK_D2]
+    n = len(segs)
+    for i, (s, kind) in enumerate(segs):
+        if n == 1 and s == '':
+            break                                  # the root route: no segment to mutate
+        pc = 'lit:' + s if kind == 'lit' else '{%s}' % kind
+        for jid, jcls, _ in junk:
+            ops.append((i, 'set', jid, pc, jcls))
+        ops.append((i, 'del', None, pc, 'delete-segment'))
+        ops.append((i, 'dslash', None, pc, 'double-slash'))
+        if not d2:
+            for tid, tcls, _ in tweaks(s if kind != 'lit' else s.upper()):
+                if kind == 'lit' and tid in ('unknown', 'unknown-std', 'long', 'prefix-only',
+                                             'standard'):
+                    continue
+                ops.append((i, 'tweak', tid, pc, tcls))
+            if i + 1 < n:
+                ops.append((i, 'encslash', None, pc, 'encslash'))
+                ops.append((i, 'encslash2', None, pc, 'encslash'))
+            ops.append((i, 'dot', None, pc, 'dot'))
+            ops.append((i, 'dotdot', None, pc, 'dot'))
+    ops.append((n, 'tslash', None, 'end', 'trailing-slash'))
+    ops.append((n, 'extra', None, 'end', 'extra-segment'))
+    if not d2:
+        ops.append((n, 'tslash2', None, 'end', 'trailing-slash'))
+        ops.append((n, 'empty', None, 'whole', 'empty-path'))
+        ops.append((n, 'noslash', None, 'whole', 'no-leading-slash'))
+        ops.append((n, 'prefix', None, 'whole', 'mount-prefix'))
+    return ops
+
+
+def enc_p(s):
+    return quote(s, safe='_-.~:{}')
+
+
+def apply_path(segs, ops):
+    pos = [o[0] for o in ops]
+    if len(set(pos)) != len(pos):
+        return None
+    out = [[s, '/'] for s, _ in segs]          # text, the separator in front of it
+    tail = ''
+    whole = None
+    dels = []
+    for o in ops:
+        i, op, arg = o[0], o[1], o[2]
+        if op == 'set':
+            out[i][0] = PATH_JUNK_BY_ID[arg][2]
+        elif op == 'tweak':
+            s, kind = segs[i]
+            src = s if kind != 'lit' else s.upper()
+            new = tweak_of(src, arg)[2]
+            if kind == 'lit' and arg not in ('upper',):
+                new = s + new[len(src):] if new.startswith(src) else new
+            out[i][0] = enc_p(new)
+        elif op == 'del':
+            dels.append(i)
+        elif op == 'dslash':
+            out[i][1] = '//'
+        elif op == 'encslash':
+            out[i + 1][1] = '%2F'
+        elif op == 'encslash2':
+            out[i + 1][1] = '%252F'
+        elif op == 'dot':
+            out[i][1] = '/./'
+        elif op == 'dotdot':
+            out[i][1] = '/x/../'
+        elif op == 'tslash':
+            tail = '/'
+        elif op == 'tslash2':
+            tail = '//'
+        elif op == 'extra':
+            tail = '/extra'
+        elif op == 'empty':
+            whole = ''
+        elif op == 'noslash':
+            whole = 'NOSLASH'
+        elif op == 'prefix':
+            whole = 'PREFIX'
+        else:
+            raise ValueError(op)
+    p = ''.join(sep + s for n, (s, sep) in enumerate(out) if n not in dels) + tail
+    if whole == '':
+        return ''
+    if whole == 'NOSLASH':
+        return p[1:]
+    if whole == 'PREFIX':
+        return '/placement' + p
+    return p
+
+
+# -- envelope: method, headers, raw body ----------------------------------------------------
+
+METHODS = ['GET', 'PUT', 'POST', 'DELETE', 'HEAD', 'OPTIONS', 'PATCH', 'TRACE', 'CONNECT',
+           'get', 'FOO', 'M' * 300, 'GE T', 'GÉT']
+VERSIONS_OK = ['placement 1.%d' % n for n in range(0, LATEST[1] + 1)] + ['placement latest']
+VERSIONS_D2 = ['placement 1.0', 'placement 1.22', 'placement 1.23', 'placement latest']
+VERSIONS_BAD = [
+    '', 'placement', 'placement ', 'placement LATEST', 'latest', '1.39', 'placement 1',
+    'placement 1.', 'placement .1', 'placement 1.x', 'placement x.1', 'placement 1.39.0',
+    'placement 1.-1', 'placement -1.0', 'placement 0.9', 'placement 1.40', 'placement 2.0',
+    'placement 9.9', 'placement 1.99999999999999999999', 'placement 1.039', 'placement  1.39',
+    'placement\t1.39', 'PLACEMENT 1.39', 'compute 2.1', 'compute 2.1, placement 1.39',
+    'placement 1.39, placement 1.0', 'placement 1.0,placement 1.39', 'placement 1.39,',
+    ',', 'placement １.39'.encode('utf-8').decode('latin-1'), 'placement 1.39\x00',
+    'placement 1e1.3', 'placement +1.39', 'placement 1.+39', 'placement 0x1.39',
+    'placement 1_0.3_9', 'placement 1.3_9', 'placement 1.39 extra', 'placement é',
+    'placement 1.' + '9' * 5000, 'placement ' + '1' * 5000 + '.0',
+]
+VERSIONS_BAD_D2 = ['', 'placement 1.x', 'placement 1.40', 'compute 2.1', 'placement 1.39.0']
+ACCEPTS = [None, '*/*', 'text/html', 'text/plain', 'application/xml', 'application/json;q=0',
+           'application/json; q=0.5, text/html', 'application/*', 'text/*',
+           'text/html, application/json', 'application/json, */*;q=0.1',
+           'application/json;version=1', 'garbage', ';;;', '', 'a/b;q=x', 'é', 'x' * 5000,
+           'application/json\x00']
+ACCEPTS_D2 = [None, '*/*', 'text/html', 'application/xml', 'garbage']
+CTYPES = [None, '', 'text/plain', 'application/xml', 'application/json; charset=utf-8',
+          'application/json; charset=utf-16', 'application/json;charset=latin-1',
+          'APPLICATION/JSON', 'application/jsonx', 'application/x-www-form-urlencoded',
+          'multipart/form-data; boundary=x', 'x', '*/*', 'é', 'application/json, text/plain',
+          'a' * 5000]
+CTYPES_D2 = [None, 'text/plain', 'application/json; charset=utf-16', 'x']
+TOKENS = ['user1:proj1', '', 'é', 'a:b:c', 'x' * 5000, ':', 'admin\x00']
+ROLES = ['', ',', 'é', 'admin,,service', 'service', 'reader', 'ADMIN', 'x' * 5000]
+EXTRA_HEADERS = [
+    ('X-Openstack-Request-Id', 'req-' + UNKNOWN_UUID), ('X-Openstack-Request-Id', 'garbage'),
+    ('X-Openstack-Request-Id', 'x' * 300), ('X-Openstack-Request-Id', 'é'),
+    ('Range', 'bytes=0-1'), ('Range', 'garbage'), ('If-None-Match', '*'), ('If-Match', '"x"'),
+    ('If-Modified-Since', 'garbage'), ('If-Modified-Since', 'Sat, 29 Oct 1994 19:43:31 GMT'),
+    ('If-Unmodified-Since', 'Sat, 29 Oct 1994 19:43:31 GMT'),
+    ('Expect', '100-continue'), ('Transfer-Encoding', 'chunked'),
+    ('X-Forwarded-Proto', 'https'), ('X-Forwarded-For', 'garbage'), ('Forwarded', ';;;'),
+    ('X-Forwarded-Prefix', '/x'), ('X-HTTP-Method-Override', 'DELETE'), ('Cookie', 'a=b; é'),
+    ('Origin', 'http://evil.example'), ('Accept-Language', 'xx;q=z'),
+    ('Accept-Charset', 'utf-16'), ('Accept-Encoding', 'gzip'),
+    ('Host', 'é:99999'), ('Host', ''), ('X-Service-Token', 'x'),
+    ('X-Identity-Status', 'Invalid'), ('X-User-Id', 'é'), ('X-Project-Id', 'x' * 300),
+    ('X-Domain-Id', 'd'), ('X-Is-Admin-Project', 'maybe'), ('Openstack-System-Scope', 'é'),
+    ('X-Openstack-Placement-Api-Version', '1.0'), ('X-Zz-Unknown', 'x' * 70000),
+]
+EXTRA_D2 = [1, 4, 11, 12]
+BODILESS_CTYPES = ['application/json', 'text/plain']
+CLEN_NOBODY = ['0', 'abc', '-1', '', '1.5', ' 0', str(I64)]
+RAW_BODIES = [
+    ('empty', 'body:empty', lambda b: b''),
+    ('trunc-half', 'body:truncated', lambda b: b[:len(b) // 2]),
+    ('trunc-1', 'body:truncated', lambda b: b[:-1]),
+    ('not-json', 'body:not-json', lambda b: b'not json'),
+    ('xml', 'body:not-json', lambda b: b'<?xml version="1.0"?><a/>'),
+    ('form', 'body:not-json', lambda b: b'name=x&uuid=y'),
+    ('binary', 'body:invalid-utf8', lambda b: b'\xff\xfe\x00\x01'),
+    ('scalar-int', 'body:scalar', lambda b: b'1'),
+    ('scalar-str', 'body:scalar', lambda b: b'"x"'),
+    ('scalar-null', 'body:scalar', lambda b: b'null'),
+    ('scalar-true', 'body:scalar', lambda b: b'true'),
+    ('scalar-nan', 'body:scalar', lambda b: b'NaN'),
+    ('other-container', 'body:other-container', lambda b: b'[]' if b[:1] == b'{' else b'{}'),
+    ('empty-container', 'body:empty-container', lambda b: b'{}' if b[:1] == b'{' else b'[]'),
+    ('wrapped', 'body:other-container', lambda b: b'[' + b + b']'),
+    ('trailing', 'body:trailing-garbage', lambda b: b + b' x'),
+    ('twice', 'body:trailing-garbage', lambda b: b + b + b''),
+    ('bom', 'body:bom', lambda b: b'\xef\xbb\xbf' + b),
+    ('utf16', 'body:utf16', lambda b: b.decode('utf-8').encode('utf-16')),
+    ('utf32', 'body:utf16', lambda b: b.decode('utf-8').encode('utf-32')),
+    ('leading-ws', 'body:whitespace', lambda b: b' \r\n\t' + b + b'\n'),
+    ('nul-pad', 'body:invalid-utf8', lambda b: b + b'\x00'),
+    ('deep-1e5', 'body:very-deep', lambda b: b'[' * 100000 + b']' * 100000),
+    ('deep-obj-1e5', 'body:very-deep', lambda b: b'{"a":' * 100000 + b'1' + b'}' * 100000),
+    ('digits-5000', 'body:huge-number', lambda b: b'{"a": ' + b'9' * 5000 + b'}'),
+    ('long-string-1MB', 'body:huge', lambda b: b'{"name": "' + b'A' * (1 << 20) + b'"}'),
+    ('many-keys', 'body:huge', lambda b: b'{' + b','.join(b'"k%d":1' % i for i in range(20000))
+     + b'}'),
+    ('comments', 'body:not-json', lambda b: b'/* c */' + b),
+    ('single-quotes', 'body:not-json', lambda b: b.replace(b'"', b"'")),
+]
+RAW_BODIES_D2 = ['empty', 'trunc-half', 'not-json', 'scalar-null', 'other-container', 'utf16']
+CLEN_LIES = [('0', 'clen:zero', lambda n: '0'), ('-1byte', 'clen:short', lambda n: str(n - 1)),
+             ('half', 'clen:short', lambda n: str(n // 2)), ('abc', 'clen:not-int', lambda n: 'abc'),
+             ('neg', 'clen:negative', lambda n: '-1'), ('blank', 'clen:empty', lambda n: ''),
+             ('float', 'clen:not-int', lambda n: '%d.0' % n),
+             ('padded', 'clen:exotic', lambda n: ' %d' % n),
+             ('plus', 'clen:exotic', lambda n: '+%d' % n),
+             ('underscore', 'clen:exotic', lambda n: ('%d' % n)[0] + '_' + ('%d' % n)[1:]
+              if n > 9 else '0_%d' % n),
+             ('missing', 'clen:missing', lambda n: None)]
+
+
+def envelope_ops(base, d2=False):
+    """(pos, op, arg, posclass, jclass); pos = the thing touched (one mutation per thing)."""
+    ops = []
+    has_body = base['body'] is not None
+    if not d2:
+        for m in METHODS:
+            if m != base['method']:
+                ops.append(('method', 'method', m, 'method',
+                            m if m in METHODS[:9] else 'garbage-method'))
+    else:
+        for m in ('GET', 'PUT', 'POST', 'DELETE', 'HEAD', 'FOO'):
+            if m != base['method']:
+                ops.append(('method', 'method', m, 'method', m if m != 'FOO' else
+                            'garbage-method'))
+    cur = 'placement %s' % base['mv']
+    ops.append(('h:version', 'hdel', 'OpenStack-API-Version', 'header:OpenStack-API-Version',
+                'missing'))
+    for v in (VERSIONS_D2 if d2 else VERSIONS_OK):
+        if v != cur:
+            ops.append(('h:version', 'hset', ('OpenStack-API-Version', v),
+                        'header:OpenStack-API-Version', 'valid-version'))
+    for n, v in enumerate(VERSIONS_BAD):
+        if not d2 or v in VERSIONS_BAD_D2:
+            ops.append(('h:version', 'hset', ('OpenStack-API-Version', v),
+                        'header:OpenStack-API-Version', 'bad-version[%d]' % n))
+    for n, v in enumerate(ACCEPTS):
+        if d2 and v not in ACCEPTS_D2:
+            continue
+        if v is None:
+            ops.append(('h:accept', 'hdel', 'Accept', 'header:Accept', 'missing'))
+        else:
+            ops.append(('h:accept', 'hset', ('Accept', v), 'header:Accept', 'accept[%d]' % n))
+    if has_body:
+        for n, v in enumerate(CTYPES):
+            if d2 and v not in CTYPES_D2:
+                continue
+            if v is None:
+                ops.append(('h:ctype', 'hdel', 'Content-Type', 'header:Content-Type', 'missing'))
+            else:
+                ops.append(('h:ctype', 'hset', ('Content-Type', v), 'header:Content-Type',
+                            'ctype[%d]' % n))
+        for rid, rcls, _ in RAW_BODIES:
+            if not d2 or rid in RAW_BODIES_D2:
+                ops.append(('body', 'rawbody', rid, 'body', rcls))
+        for cid, ccls, _ in CLEN_LIES:
+            if not d2 or cid in ('0', 'half', 'abc'):
+                ops.append(('clen', 'clen', cid, 'header:Content-Length', ccls))
+    else:
+        for v in BODILESS_CTYPES:
+            ops.append(('h:ctype', 'hset', ('Content-Type', v), 'header:Content-Type',
+                        'ctype-without-body'))
+        ops.append(('body', 'addbody', 'json', 'body', 'body-on-bodiless:json'))
+        if not d2:
+            ops.append(('body', 'addbody', 'junk', 'body', 'body-on-bodiless:junk'))
+            for v in CLEN_NOBODY:
+                ops.append(('clen', 'clenraw', v, 'header:Content-Length', 'clen-without-body'))
+    if not d2:
+        for n, v in enumerate(TOKENS):
+            ops.append(('h:token', 'hset', ('X-Auth-Token', v), 'header:X-Auth-Token',
+                        'token[%d]' % n))
+        for n, v in enumerate(ROLES):
+            ops.append(('h:roles', 'hset', ('X-Roles', v), 'header:X-Roles', 'roles[%d]' % n))
+        ops.append(('h:roles', 'hdel', 'X-Roles', 'header:X-Roles', 'missing'))
+    for n, (k, v) in enumerate(EXTRA_HEADERS):
+        if not d2 or n in EXTRA_D2:
+            ops.append(('h:' + k.lower(), 'hadd', n, 'header:' + k, 'extra[%d]' % n))
+    return ops
+
+
+def apply_envelope(req, ops):
+    """Mutate a request dict (method, headers, body, clen) in place; None if not composable."""
+    pos = [o[0] for o in ops]
+    if len(set(pos)) != len(pos):
+        return None
+    hdr = [list(h) for h in req['headers']]
+
+    def hset(name, value):
+        for h in hdr:
+            if h[0].lower() == name.lower():
+                h[1] = value
+                return
+        hdr.append([name, value])
+
+    def hdel(name):
+        hdr[:] = [h for h in hdr if h[0].lower() != name.lower()]
+
+    body = None if req['body'] is None else req['body'].encode('latin-1')
+    clen = None
+    for o in ops:
+        op, arg = o[1], o[2]
+        if op == 'method':
+            req['method'] = arg
+        elif op == 'hset':
+            hset(arg[0], arg[1])
+        elif op == 'hdel':
+            hdel(arg)
+        elif op == 'hadd':
+            hset(*EXTRA_HEADERS[arg])
+        elif op == 'rawbody':
+            body = [f for rid, _, f in RAW_BODIES if rid == arg][0](body)
+        elif op == 'addbody':
+            body = b'{"name": "x"}' if arg == 'json' else b'\xff\x00junk'
+        elif op in ('clen', 'clenraw'):
+            clen = (op, arg)
+    req['headers'] = hdr
+    req['body'] = None if body is None else body.decode('latin-1')
+    req.pop('clen', None)
+    if clen is not None:
+        if clen[0] == 'clenraw':
+            req['clen'] = clen[1]
+        else:
+            n = len(body or b'')
+            v = [f for cid, _, f in CLEN_LIES if cid == clen[1]][0](n)
+            if v is None:
+                req['nolen'] = True
+            else:
+                if INT_RE.match(v) and int(v) > n:
+                    return None
+                req['clen'] = v
+    return req
+
+
+# =========================================================================================
+# 7. Cases
+# =========================================================================================
+# A case descriptor is (base index, state, part, ops); part in ('base', 'body', 'query', 'path',
+# 'envelope'); ops = tuple of op tuples as produced by the *_ops functions.  Master and workers
+# both derive the concrete request from the descriptor with build_case().
+
+_CORPUS = None
+
+
+def get_corpus():
+    global _CORPUS
+    if _CORPUS is None:
+        _CORPUS = corpus()
+        for b in _CORPUS:
+            b['tree'] = None if b['body'] is None else tree_of(b['body'])
+            b['segs'] = base_path(b)
+    return _CORPUS
+
+
+def part_ops(base, part, d2=False):
+    if part == 'body':
+        if base['tree'] is None:
+            return []
+        return body_ops(base['tree'], BODY_JUNK_D2 if d2 else None, d2)
+    if part == 'query':
+        return query_ops(base['query'], d2)
+    if part == 'path':
+        return path_ops(base['segs'], d2)
+    if part == 'envelope':
+        return envelope_ops(base, d2)
+    raise ValueError(part)
+
+
+PARTS = ('path', 'query', 'envelope', 'body')
+
+
+def build_case(base, part, ops):
+    """-> request dict, or None when the ops do not compose."""
+    req = base_request(base)
+    if part == 'base':
+        return req
+    if part == 'body':
+        raw = apply_body(base['tree'], ops)
+        if raw is None:
+            return None
+        req['body'] = raw.decode('latin-1')
+    elif part == 'query':
+        q = apply_query(base['query'], ops)
+        if q is None:
+            return None
+        req['query'] = q or None
+    elif part == 'path':
+        p = apply_path(base['segs'], ops)
+        if p is None:
+            return None
+        req['path'] = p
+    elif part == 'envelope':
+        return apply_envelope(req, ops)
+    return req
+
+
+def op_label(base, part, op):
+    """(position class, operator, junk class) of one op."""
+    if part == 'body':
+        return ('body:' + pointer_class(base['tree'], op[0]), op[1], op[3])
+    if part == 'query':
+        return ('?' + op[3], op[1], op[4])
+    if part == 'path':
+        return ('path:' + op[3], op[1], op[4])
+    return (op[3], op[1], op[4])
+
+
+# =========================================================================================
+# 8. Oracle (written from the property statement, errors.inc, version history 1.23, and the
+#    microversion specification for the version header)
+# =========================================================================================
+
+def requested_version(headers):
+    """The microversion the client asked for, by the OpenStack microversion header rules:
+    'OpenStack-API-Version: placement X.Y' (comma separated list of 'service version' entries),
+    absent header = minimum version; 'latest' = maximum.  None = not a well-formed / supported
+    request for a placement version (then the service may answer 406/400 and no `code` is due)."""
+    vals = [v for k, v in headers if k.lower() == 'openstack-api-version']
+    if not vals:
+        return (1, 0)
+    found = None
+    for entry in vals[0].split(','):
+        bits = entry.strip().split(None, 1)
+        if len(bits) == 2 and bits[0].lower() == 'placement':
+            found = bits[1].strip()
+    if found is None:
+        return (1, 0)         # no entry for this service: the default (minimum) version applies
+    if found == 'latest':
+        return LATEST
+    m = re.match(r'^([0-9]+)\.([0-9]+)$', found)
+    if not m or len(found) > 20:
+        return None
+    v = (int(m.group(1)), int(m.group(2)))
+    if v < (1, 0) or v > LATEST:
+        return None
+    return v
+
+
+def json_preference(headers):
+    """-> 'json' when the client's Accept header asks for JSON (alone or preferred over HTML /
+    plain text), 'other' when it asks for something else, 'any' when it leaves the choice open
+    in a way the documentation does not settle.  No Accept header (or */*) = JSON, as the API
+    reference describes JSON as the only representation."""
+    vals = [v for k, v in headers if k.lower() == 'accept']
+    if not vals or vals[0].strip() in ('', '*/*'):
+        return 'json'
+    q_json = q_other = None
+    for item in vals[0].split(','):
+        bits = [b.strip() for b in item.split(';')]
+        mt = bits[0].lower()
+        q = 1.0
+        for p in bits[1:]:
+            if p.replace(' ', '').startswith('q='):
+                try:
+                    q = float(p.replace(' ', '')[2:])
+                except ValueError:
+                    return 'any'
+            elif p:
+                return 'any'          # media type parameters: specificity rules, not settled
+        if not re.match(r'^[a-z0-9*.+-]+/[a-z0-9*.+-]+$', mt):
+            return 'any'
+        if mt == 'application/json':
+            q_json = q if q_json is None else max(q_json, q)
+        elif mt in ('*/*', 'application/*'):
+            return 'any'
+        else:
+            q_other = q if q_other is None else max(q_other, q)
+    if q_json is None or q_json == 0:
+        return 'other'
+    if q_other is None or q_other < q_json:
+        return 'json'
+    return 'any'
+
+
+def judge(req, resp, changed):
+    """-> list of (kind, message).  kind is the outcome part of the signature."""
+    out = []
+    st = resp.status
+    if resp.escaped is not None or st == 599:
+        return [('escaped', 'an exception escaped the WSGI pipeline: %s' %
+                 resp.raw[:300].decode('utf-8', 'replace'))]
+    if not isinstance(st, int) or st < 200 or st > 599:
+        return [('malformed-response:status', 'status %r' % (st,))]
+    if st >= 500:
+        det = ''
+        try:
+            det = resp.json['errors'][0]['detail']
+        except Exception:
+            det = resp.raw[:300].decode('utf-8', 'replace')
+        out.append(('status%d' % st, 'server error %d, detail=%r' % (st, det[:400])))
+    ctype = (resp.headers.get('Content-Type') or resp.headers.get('content-type') or '')
+    head = req['method'] == 'HEAD'
+    if st in (204, 304) and resp.raw:
+        out.append(('malformed-response:body-on-%d' % st, 'status %d with a body' % st))
+    if resp.raw and ctype.startswith('application/json') and resp.json is None \
+            and resp.raw.strip() != b'null':
+        out.append(('malformed-response:json', 'content-type is JSON, body does not parse: %r'
+                    % resp.raw[:200]))
+    cl = resp.headers.get('Content-Length')
+    if cl is not None and not head and (not cl.isdigit() or int(cl) != len(resp.raw)):
+        out.append(('malformed-response:content-length',
+                    'Content-Length %r but body has %d bytes' % (cl, len(resp.raw))))
+    if 400 <= st < 500 and st != 401 and not head and json_preference(req['headers']) == 'json':
+        problems = []
+        if not ctype.startswith('application/json'):
+            problems.append('content-type %r' % ctype)
+        j = resp.json
+        e = None
+        if not isinstance(j, dict) or not isinstance(j.get('errors'), list) or not j['errors'] \
+                or not isinstance(j['errors'][0], dict):
+            problems.append('no errors[0] object')
+        else:
+            e = j['errors'][0]
+            if e.get('status') != st:
+                problems.append('errors[0].status=%r' % (e.get('status'),))
+            for f in ('title', 'request_id'):
+                if not isinstance(e.get(f), str) or not e.get(f):
+                    problems.append('errors[0].%s=%r' % (f, e.get(f)))
+            if not isinstance(e.get('detail'), str):
+                problems.append('errors[0].detail=%r' % (e.get('detail'),))
+            v = requested_version(req['headers'])
+            if v is not None and v >= (1, 23) and st != 406:
+                if not isinstance(e.get('code'), str) or not e.get('code'):
+                    problems.append('errors[0].code=%r at microversion %d.%d' % (
+                        (e.get('code'),) + v))
+        if problems:
+            fields = ','.join(sorted(p.split('=')[0].split(' ')[0] for p in problems))
+            out.append(('error-format:%d:%s' % (st, fields),
+                        '%d error body does not follow the errors guideline: %s; body=%r' % (
+                            st, '; '.join(problems), resp.raw[:300])))
+    if st in MALFORMED and changed:
+        out.append(('state-changed:%d' % st,
+                    'request rejected with %d changed stored state: %s' % (st, changed)))
+    return out
+
+
+# =========================================================================================
+# 9. Worker
+# =========================================================================================
+
+class Worker(EnumWorker):
+    def setup(self):
+        self.corpus = get_corpus()
+        self.images = {}
+        self.cores = {}
+        self.dumps = {}
+        for st in STATES:
+            self.restore(self.base)
+            for r in state_requests(st):
+                resp = wsgi_call(self.h.app, r)
+                if resp.status >= 400:
+                    raise RuntimeError('state %s: %s %s -> %s %s' % (
+                        st, r['method'], r['path'], resp.status, resp.raw[:300]))
+            self.images[st] = self.image()
+            d = self.dump()
+            self.dumps[st] = d
+            self.cores[st] = d.core(gens=True, aux=True)
+        self.cur = None
+        self.dirty = True
+
+    def execute(self, state, req):
+        """-> (resp, changed: '' or text)."""
+        if self.cur != state or self.dirty:
+            self.restore(self.images[state])
+            self.cur = state
+        run = Run()
+        self.probe.cur = run
+        try:
+            resp = wsgi_call(self.h.app, req)
+        finally:
+            self.probe.cur = None
+        img = self.image()
+        self.dirty = img != self.images[state]
+        changed = ''
+        if self.dirty and resp.status in MALFORMED:
+            d = self.dump()
+            if d.core(gens=True, aux=True) != self.cores[state]:
+                changed = '; '.join(diff(self.dumps[state], d, gens=True, aux=True)) or 'core'
+        return resp, changed
+
+    def case(self, c):
+        bi, state, part, ops = c
+        base = self.corpus[bi]
+        req = build_case(base, part, ops)
+        if req is None:
+            return None
+        resp, changed = self.execute(state, req)
+        v = judge(req, resp, changed)
+        det = None
+        if resp.status >= 500:
+            try:
+                det = resp.json['errors'][0]['detail'][:200]
+            except Exception:
+                det = resp.raw[:200].decode('utf-8', 'replace')
+        return (resp.status, v, det)
+
+
+def make_worker(base_image, *args):
+    return Worker(base_image, *args)
